@@ -43,6 +43,8 @@ def mk(spec):
 
 def gen_msg(rng):
     t = pick(rng, (0, 0, 1, 10, 96, 480, 1000))
+    if rng.random() < 0.02:
+        t = pick(rng, (1 << 28, (1 << 28) + 5, (1 << 28) - 1))      # at and beyond the largest storable delta
     if rng.random() < 0.04:
         t = float(t)        # a float that equals an integer (makes save raise until it is repaired)
     r = rng.random()
@@ -247,6 +249,12 @@ class History(BaseEngine):
             if model is not None:
                 fn_m(model)
         nt = len(target.tracks)
+        held = self._held.setdefault(id(target), {})
+
+        def new_track(msgs, ti_hint):
+            # the caller creates the track object (sometimes a plain list), adds it and keeps its own reference
+            obj = [m.copy() for m in msgs] if (a + b) % 4 == 0 else MidiTrack(m.copy() for m in msgs)
+            return obj
         if e == 'add_track':
             name = None if a % 2 else f'n{a % 7}'
             target.add_track(name)
@@ -257,16 +265,20 @@ class History(BaseEngine):
                 model['tracks'].append(tr)
         elif e == 'tracks_append':
             new = [mk(s) for s in specs]
-            target.tracks.append(MidiTrack(m.copy() for m in new))
+            obj = new_track(new, nt)
+            target.tracks.append(obj)
+            held[len(target.tracks) - 1] = obj
             if model is not None:
                 model['tracks'].append([m.copy() for m in new])
         elif e == 'tracks_insert':
+            held.clear()
             i = a % (nt + 1)
             new = [mk(s) for s in specs]
             target.tracks.insert(i, MidiTrack(m.copy() for m in new))
             if model is not None:
                 model['tracks'].insert(i, [m.copy() for m in new])
         elif e == 'tracks_pop':
+            held.clear()
             if nt:
                 i = a % nt
                 if a % 2:
@@ -276,6 +288,7 @@ class History(BaseEngine):
                 if model is not None:
                     model['tracks'].pop(i)
         elif e == 'tracks_set':
+            held.clear()
             if nt:
                 i = a % nt
                 new = [mk(s) for s in specs]
@@ -283,6 +296,7 @@ class History(BaseEngine):
                 if model is not None:
                     model['tracks'][i] = [m.copy() for m in new]
         elif e == 'tracks_replace':
+            held.clear()
             keep = [t for j, t in enumerate(target.tracks) if (a >> j) & 1]
             target.tracks = list(keep)
             if model is not None:
@@ -293,6 +307,9 @@ class History(BaseEngine):
                 return
             ti = a % nt
             tr = target.tracks[ti]
+            h = held.get(ti)
+            if h is not None and len(h) == len(tr) and all(x is y or x == y for x, y in zip(h, tr)):
+                tr = h      # edit through the reference the caller kept when it added this track
             mtr = model['tracks'][ti] if model is not None else None
             n = len(tr)
             new = [mk(s) for s in specs]
@@ -362,6 +379,8 @@ class History(BaseEngine):
                     if mtr is not None:
                         mtr[i] = mtr[i].copy(tempo=val * 1000)
             elif e == 'track_name':
+                if not isinstance(tr, MidiTrack):
+                    return      # a plain list has no name property: not a documented edit
                 tr.name = f'name{b % 5}'
                 if mtr is not None:
                     for j, m in enumerate(mtr):
@@ -385,6 +404,7 @@ class History(BaseEngine):
         return (mf.type, mf.ticks_per_beat, [[repr(m) for m in t] for t in mf.tracks])
 
     def _simulate(self, plan, log, stats, cov):
+        self._held = {}
         a = self._make(plan)
         b = self._make(plan)
         model = {'type': a.type, 'tpb': a.ticks_per_beat, 'tracks': [[m.copy() for m in t] for t in a.tracks]}
